@@ -131,6 +131,43 @@ def rnd_tree(rng, nblocks, pbad=0.25, pno=0.05, min_first_tx=True):
     return blocks
 
 
+def add_gov(rng, blocks, pmore=0.4):
+    """Governance: a fully valid block gets a stake + DAO vote changing the gas price (engine field `gov`, in Gaer above
+    the base price).  At most one such block on any root-to-leaf path (a second voter on the same path would not reach
+    the vote threshold), so that every `gov` block really changes the system parameters of its branch."""
+    by = {b["name"]: b for b in blocks}
+
+    def anc(n):
+        r = set()
+        while n in by:
+            r.add(n)
+            n = by[n]["parent"]
+        return r
+    cand = [b for b in blocks if not b.get("bad") and b.get("no") is None and not b.get("forge")]
+    rng.shuffle(cand)
+    chosen = []
+    for b in cand:
+        if chosen and rng.random() >= pmore:
+            break
+        if any(b["name"] in anc(c["name"]) or c["name"] in anc(b["name"]) for c in chosen):
+            continue
+        # every ancestor must be executable, otherwise the block is never executed
+        if any(by[a].get("bad") for a in anc(b["name"])):
+            continue
+        b["gov"] = rng.choice([10, 20, 30])
+        chosen.append(b)
+    return [b["name"] for b in chosen]
+
+
+def add_wal(rng, case, pwal=0.5):
+    """Consensus configuration with a write-ahead log (raftv2): HasWAL() is true, IsConnectedBlock is the raft one;
+    the consensus pre-writes the body of some blocks (always of the ones it hands over with their block state)."""
+    own = case.get("own") or [False] * len(case["arrivals"])
+    case["haswal"] = True
+    case["wal"] = [bool(o) or rng.random() < pwal for o in own]
+    return case
+
+
 def rnd_arrivals(rng, blocks, shuffle=0.5, dup=0.2):
     names = [b["name"] for b in blocks]
     order = list(names)
@@ -398,7 +435,7 @@ def run_pool_engine(ctx, path, scripts, tag):
 def pool_scripts(case, out):
     """The message trace of one chain-engine case as scripts for the pool engine (two orders of the re-submitted
     transactions: swapTxMapping ranges over a Go map).  Only cases without invalid blocks / forged numbers."""
-    if any(b.get("bad") or b.get("no") is not None or b.get("forge") for b in case["blocks"]):
+    if any(b.get("bad") or b.get("no") is not None or b.get("forge") or b.get("gov") for b in case["blocks"]):
         return []
     na = case.get("naccts", 3)
     byname = {b["name"]: b for b in case["blocks"]}
